@@ -1,0 +1,42 @@
+//go:build verif
+
+package authenticode
+
+import (
+	"io"
+
+	"github.com/sassoftware/relic/v8/lib/comdoc"
+)
+
+// Add-only test hooks for the /verif correspondence harness (format module fmtmsi).
+// Thin exported wrappers around unexported functions and constants; no behaviour change.
+
+// VerifHashMsiDir calls hashMsiDir (the content part of the MSI digest) with an arbitrary writer.
+func VerifHashMsiDir(cdf *comdoc.ComDoc, parent *comdoc.DirEnt, d io.Writer) error {
+	return hashMsiDir(cdf, parent, d)
+}
+
+// VerifPrehashMsiDir calls prehashMsiDir (the metadata covered by MsiDigitalSignatureEx) with an arbitrary writer.
+func VerifPrehashMsiDir(cdf *comdoc.ComDoc, parent *comdoc.DirEnt, d io.Writer) error {
+	return prehashMsiDir(cdf, parent, d)
+}
+
+// VerifPrehashMsiDirent calls prehashMsiDirent.
+func VerifPrehashMsiDirent(item *comdoc.DirEnt, d io.Writer) error {
+	return prehashMsiDirent(item, d)
+}
+
+// VerifSortMsiFiles calls sortMsiFiles.
+func VerifSortMsiFiles(files []*comdoc.DirEnt) {
+	sortMsiFiles(files)
+}
+
+// VerifMsiDecodeName calls msiDecodeName.
+func VerifMsiDecodeName(name string) string {
+	return msiDecodeName(name)
+}
+
+// VerifMsiNames returns msiDigitalSignature, msiDigitalSignatureEx, msiTarExMeta, msiTarStorageUID.
+func VerifMsiNames() (string, string, string, string) {
+	return msiDigitalSignature, msiDigitalSignatureEx, msiTarExMeta, msiTarStorageUID
+}
